@@ -40,9 +40,9 @@ BlockXX(n1, n2, e) ==
   IN MkBlock("XX", e, ats, ints)
 
 AllNames == <<"A", "B", "X1", "X2", "GLY", "ALA">>
-LBond(ord, a, b, par) == [kind |-> "bond", ord |-> ord, rns |-> AllNames, a |-> a, b |-> b, sec |-> "bonds", par |-> par]
-LRemove(rns, a) == [kind |-> "remove", ord |-> "0", rns |-> rns, a |-> a, b |-> "", sec |-> "", par |-> <<>>]
-LRetype(rns, a, ty, q) == [kind |-> "retype", ord |-> "0", rns |-> rns, a |-> a, b |-> "", sec |-> "", par |-> <<ty, q>>]
+LBond(ord, a, b, par) == [kind |-> "bond", ord |-> ord, rns |-> AllNames, a |-> a, b |-> b, sec |-> "bonds", par |-> par, xb |-> ""]
+LRemove(rns, a) == [kind |-> "remove", ord |-> "0", rns |-> rns, a |-> a, b |-> "", sec |-> "", par |-> <<>>, xb |-> ""]
+LRetype(rns, a, ty, q) == [kind |-> "retype", ord |-> "0", rns |-> rns, a |-> a, b |-> "", sec |-> "", par |-> <<ty, q>>, xb |-> ""]
 LinkSet(v) == IF v = 0 THEN <<>>
               ELSE IF v = 1 THEN <<LBond("+", "c1", "c1", <<"1", "0.47", "1250">>)>>
               ELSE IF v = 2 THEN <<LBond(">", "c2", "c1", <<"1", "0.37", "7000">>)>>
@@ -101,7 +101,7 @@ BlockGLY == MkBlock("GLY", 1, TLCEval([a \in 1..3 |-> At(PN[a], "P5", QA[a], MA[
 BlockALA == MkBlock("ALA", 1, TLCEval([a \in 1..2 |-> At(PN[a], "P4", QB[a], MB[a], CGB[a], 1, "ALA")]),
                     <<In("constraints", <<1, 2>>, <<"1", "0.27">>)>>)
 BlockBM == MkBlock("B", 1, TLCEval([a \in 1..2 |-> At(PN[a], "TB", QB[a], MB[a], 1, 1, "B")]), <<In("bonds", <<1, 2>>, <<"1", "0.41", "1000">>)>>)
-LBondP == [kind |-> "bond", ord |-> "+", rns |-> AllNames, a |-> "CA", b |-> "N", sec |-> "bonds", par |-> <<"1", "0.35", "1250">>]
+LBondP == [kind |-> "bond", ord |-> "+", rns |-> AllNames, a |-> "CA", b |-> "N", sec |-> "bonds", par |-> <<"1", "0.35", "1250">>, xb |-> ""]
 MAt(an, rep, ty, q) == [an |-> an, rep |-> rep, ty |-> ty, q |-> q]
 ModNter(withInter) == [name |-> "N-ter", atoms |-> <<MAt("N", TRUE, "Qd", "1.0"), MAt("CA", FALSE, "", "")>>,
                        inters |-> IF withInter THEN <<[sec |-> "bonds", a |-> "N", b |-> "CA", par |-> <<"1", "0.9", "900">>]>> ELSE <<>>]
@@ -125,8 +125,8 @@ BlockE(name, ty, n, e, v) ==
   IN [MkBlock(name, e, ats, PickV(c, S)) EXCEPT !.atoms = TLCEval([a \in 1..n |-> [ats[a] EXCEPT !.rn = name]])]
 LinkSetE(v) == IF v = 1 THEN <<LBond("+", "c1", "c1", <<"1", "0.47", "1250">>)>>
                ELSE IF v = 2 THEN <<LBond(">", "c2", "c1", <<"1", "0.37", "7000">>), LBond(">", "c1", "c1", <<"1", "0.47", "1250">>)>>
-               ELSE <<LBond(">", "c3", "c1", <<"1", "0.36", "7100">>), LBond("+", "c1", "c2", <<"1", "0.38", "7200">>),
-                      [LBond("+", "c1", "c3", <<>>) EXCEPT !.sec = "exclusions"]>>
+               ELSE <<LBond(">", "c3", "c1", <<"1", "0.36", "7100">>), [LBond("+", "c1", "c2", <<"1", "0.38", "7200">>) EXCEPT !.xb = "c3"],
+                      [LBond("+", "c1", "c1", <<"1", "0.39">>) EXCEPT !.sec = "constraints", !.xb = "c2"]>>
 FFE(sz, ee, lv) == MkFF(<<BlockE("A", "TA", sz[1], ee[1], sz[3]), BlockE("B", "TB", sz[2], ee[2], sz[4])>>, LinkSetE(lv), <<>>)
 FFsE(szs, ees, lvs) == LET c == SetToSeq(szs \X ees \X lvs) IN TLCEval([x \in DOMAIN c |-> FFE(c[x][1], c[x][2], c[x][3])])
 Trees(n) == {E \in ConnGraphs(n) : Cardinality(E) = n - 1}
